@@ -836,6 +836,37 @@ def native_C13(tier, seed):
                 fails.append({"id": f"C13-zuko-{len(kw)}", "obligation": "flow save/load", "what": "reloaded zuko flow has a different density", "input": {"kwargs": str(kw)}})
         except Exception as e:  # noqa: BLE001
             fails.append({"id": f"C13-zuko-raise-{len(kw)}", "obligation": "flow save/load", "what": f"zuko {kw}: {type(e).__name__}: {str(e)[:150]}", "input": {"kwargs": str(kw)}})
+    # the same flow object saved more than once (second snapshot / overwrite / another file): every copy reloads to the same density
+    cases += 1
+    try:
+        tr = CompositeTransform(parameters=["mass", "chi"], prior_bounds={"mass": [0.0, 1.0], "chi": [0.0, 2.0]}, xp=torch, dtype=torch.float32)
+        fl = ZukoFlow(dims=2, data_transform=tr, hidden_features=[8])
+        fl.fit(xs, n_epochs=1) if hasattr(fl, "fit") else None
+        ref = fl.log_prob(xs)
+        for k in range(3):
+            with mem() as f:
+                fl.save(f, "flow")
+                g = ZukoFlow.load(f, "flow")
+            if not torch.allclose(ref, g.log_prob(xs), atol=1e-6):
+                fails.append({"id": f"C13-zuko-save-{k + 1}", "obligation": "flow save/load", "what": f"copy #{k + 1} of the same zuko flow object reloads to a different density", "input": {"save_number": k + 1}})
+                break
+    except Exception as e:  # noqa: BLE001
+        fails.append({"id": "C13-zuko-resave-raise", "obligation": "flow save/load", "what": f"saving the same zuko flow object repeatedly: {type(e).__name__}: {str(e)[:150]}", "input": {}})
+    if True:
+        from aspire.flows.jax.flows import FlowJax
+        import jax
+        for dims in ((3,) if tier == "quick" else (2, 3, 5)):
+            cases += 1
+            try:
+                Xd = rng.normal(size=(20, dims))
+                fl = FlowJax(dims=dims, key=jax.random.key(3))
+                with mem() as f:
+                    fl.save(f, "flow")
+                    g = FlowJax.load(f, "flow")
+                if not np.allclose(np.asarray(fl.log_prob(Xd)), np.asarray(g.log_prob(Xd)), atol=1e-5):
+                    fails.append({"id": f"C13-flowjax-dims{dims}", "obligation": "flow save/load", "what": f"reloaded flowjax flow (dims={dims}: permutations between layers) has a different density", "input": {"dims": dims}})
+            except Exception as e:  # noqa: BLE001
+                fails.append({"id": f"C13-flowjax-raise-dims{dims}", "obligation": "flow save/load", "what": f"{type(e).__name__}: {str(e)[:150]}", "input": {"dims": dims}})
     if tier == "thorough":
         from aspire.flows.jax.flows import FlowJax
         import jax
